@@ -186,6 +186,22 @@ theorem C01_root_active_conformant (env : Env σ) (d : Doc) (hc : conformantB d 
       (hdesc t0 (by rw [htg]; exact List.mem_cons_self)) []
 #assert_axioms C01_root_active_conformant
 
+/-- **entry half, inclusion part**: after a microstep every proper-state target of every taken
+    transition is active, and so is every proper ancestor of each of its effective targets (history
+    dereferenced with the values recorded by this microstep's exits) below the transition's domain —
+    the ancestors a legal configuration needs are entered, for every document, history and
+    transition set (no fuel side condition: the entry recursion always has fuel for its first level) -/
+theorem C01_entry_targets_and_ancestors (env : Env σ) (d : Doc) (s : Sess σ) (ts : List Nat)
+    (tid : Nat) (htid : tid ∈ ts) :
+    let hv' := (exitStates env d s ts).hv
+    (∀ t ∈ (getTrans d tid).target, isHistoryState d t = false → t ∈ (microstep env d s ts).cfg) ∧
+    (∀ x ∈ effTargets d hv' (getTrans d tid),
+      ∀ a ∈ getProperAncestors d x (transDomain d hv' (getTrans d tid)), a ∈ (microstep env d s ts).cfg) := by
+  have h := computeEntrySet_adds d (exitStates env d s ts).hv ts tid htid
+  exact ⟨fun t ht hn => (C01_microstep_configuration env d s ts t).2 (Or.inr (h.1 t ht hn)),
+         fun x hx a ha => (C01_microstep_configuration env d s ts a).2 (Or.inr (h.2 x hx a ha))⟩
+#assert_axioms C01_entry_targets_and_ancestors
+
 /-- **no state is exited while a state below it is still active**: in the order in which
     `exitStates` processes the exit set (reverse document order, `C02_exit_order`), every exited
     descendant of a state stands before that state — together with `C01_exit_descendant_closed`:
@@ -209,7 +225,8 @@ theorem C01_exit_descendants_first (d : Doc) (hc : conformantB d = true) (hv : T
     states that stay active keep an active parent (`C01_exit_descendant_closed`,
     `C01_kept_parent_active`), and descendants are exited before their ancestors
     (`C01_exit_descendants_first`); the root is active in every reachable session
-    (`C01_root_active_conformant`, first clause of `legalB`).
+    (`C01_root_active_conformant`, first clause of `legalB`); targets and the ancestors of effective
+    targets below the domain are entered (`C01_entry_targets_and_ancestors`).
     **Missing** for `C01_full`: (i) for the *entered* states the clause "every active state's parent
     is active", and the clauses "exactly one active child of a compound state / of the root", "all
     children of an active parallel state are active" of `legalB`, and (ii) "no state is entered
@@ -254,6 +271,8 @@ example : conformantB exDoc1 = true := by decide
 example : legalB exDoc1 [1, 2, 3, 4, 5, 6] = true := by decide
 example : legalB exDoc1 [1, 2, 3, 4] = false := by decide      -- a parallel child is missing
 example : (computeEntrySet exDoc1 [] [20]).toEnter = [2, 3, 4, 5, 6, 1] := by decide
+-- C01_entry_targets_and_ancestors on exDoc1: transition 10 (4 → 7) has effective target 7, domain 1 (root): nothing between
+example : effTargets exDoc1 [] (getTrans exDoc1 10) = [7] ∧ transDomain exDoc1 [] (getTrans exDoc1 10) = 1 := by decide
 -- hypotheses of C01_root_active / C01_root_active_conformant for exDoc1
 example : (getState exDoc1 exDoc1.root).kids ≠ [] ∧ (getTrans exDoc1 (getState exDoc1 exDoc1.root).initial).target = [2] ∧
     isHistoryState exDoc1 2 = false := by decide
